@@ -60,6 +60,10 @@ struct ModelOut {
     well_formed: usize,
     /// The connection is expected to end (client sent an Error PDU).
     ends: bool,
+    /// The model stopped at an erroneous unit after which the byte stream is
+    /// no longer framed (the server read only its header but the unit is
+    /// longer): nothing is specified beyond the Error PDU for it.
+    desync: bool,
 }
 
 /// Items of a source answer as the PDUs RFC 8210 prescribes for `version`.
@@ -86,7 +90,7 @@ fn eod(version: u8, state: StateKey, timing: (u32, u32, u32)) -> WirePdu {
 /// followed each; queries beyond the logged answers are reported through
 /// `well_formed` only.
 fn model(bytes: &[u8], answers: &[(SourceCall, Option<(u32, u32, u32)>)]) -> Result<ModelOut, Violation> {
-    let mut out = ModelOut { expected: Vec::new(), well_formed: 0, ends: false };
+    let mut out = ModelOut { expected: Vec::new(), well_formed: 0, ends: false, desync: false };
     let mut version: Option<u8> = None;
     let mut pos = 0usize;
     let mut next_answer = 0usize;
@@ -96,12 +100,20 @@ fn model(bytes: &[u8], answers: &[(SourceCall, Option<(u32, u32, u32)>)]) -> Res
         let session = u16::from_be_bytes([bytes[pos + 2], bytes[pos + 3]]);
         let len = u32::from_be_bytes([bytes[pos + 4], bytes[pos + 5], bytes[pos + 6], bytes[pos + 7]]);
         match version {
+            // An erroneous unit gets an Error PDU. The server has read exactly
+            // its 8-byte header at that point; if the unit *is* 8 bytes long
+            // (length field 8) the stream stays framed and later queries must
+            // still be answered, otherwise nothing more is specified.
             Some(cur) if cur != v => {
                 out.expected.push(Expected::Error { unsupported_version: false });
-                return Ok(out); // nothing is specified after an error response
+                if len == 8 { pos += 8; continue; }
+                out.desync = true;
+                return Ok(out);
             }
             None if v > 2 => {
                 out.expected.push(Expected::Error { unsupported_version: true });
+                if len == 8 { pos += 8; continue; }
+                out.desync = true;
                 return Ok(out);
             }
             None => version = Some(v),
@@ -111,6 +123,8 @@ fn model(bytes: &[u8], answers: &[(SourceCall, Option<(u32, u32, u32)>)]) -> Res
             wire::T_SERIAL_QUERY => {
                 if len != 12 {
                     out.expected.push(Expected::Error { unsupported_version: false });
+                    if len == 8 { pos += 8; continue; }
+                    out.desync = true;
                     return Ok(out);
                 }
                 if bytes.len() - pos < 12 {
@@ -156,6 +170,7 @@ fn model(bytes: &[u8], answers: &[(SourceCall, Option<(u32, u32, u32)>)]) -> Res
             wire::T_RESET_QUERY => {
                 if len != 8 {
                     out.expected.push(Expected::Error { unsupported_version: false });
+                    out.desync = true;
                     return Ok(out);
                 }
                 pos += 8;
@@ -185,6 +200,8 @@ fn model(bytes: &[u8], answers: &[(SourceCall, Option<(u32, u32, u32)>)]) -> Res
             }
             _ => {
                 out.expected.push(Expected::Error { unsupported_version: false });
+                if len == 8 { pos += 8; continue; }
+                out.desync = true;
                 return Ok(out);
             }
         }
@@ -235,6 +252,20 @@ impl C08 {
                 },
             };
             units.push(u);
+        }
+        // Erroneous but *framed* units (exactly 8 bytes, length field 8) may
+        // appear anywhere: the queries after them must still be answered.
+        if matches!(kind, RunKind::Random) && t.chance(1, 4) {
+            let n_framed = 1 + t.choose(2);
+            for _ in 0..n_framed {
+                let framed = match t.choose(3) {
+                    0 => Unit::Bad { what: "framed-unknown-type", bytes: wire::header(v, *t.pick(&[0u8, 3, 4, 5, 7, 8, 9, 11, 12, 255]), t.bits(16) as u16, 8) },
+                    1 => Unit::Bad { what: "framed-other-version", bytes: WirePdu::ResetQuery { v: (v + 1 + t.choose(2) as u8) % 3 }.encode() },
+                    _ => Unit::Bad { what: "framed-version-too-new", bytes: WirePdu::ResetQuery { v: 3 + t.choose(253) as u8 }.encode() },
+                };
+                let at = t.choose(units.len() as u64 + 1) as usize;
+                units.insert(at, framed);
+            }
         }
         if matches!(kind, RunKind::Random) && t.chance(1, 4) {
             let bad = match t.choose(7) {
@@ -581,7 +612,9 @@ impl C08 {
         };
 
         // 3. the source is consulted exactly once per well-formed query
-        if answers.len() > m.well_formed {
+        // (once the stream is unframed by an erroneous unit, whatever follows
+        // may or may not look like a query to the server: not specified)
+        if answers.len() > m.well_formed && !m.desync {
             return Err(Violation::new(
                 "duplicated-query",
                 ctx_key("source-calls"),
@@ -679,12 +712,14 @@ impl C08 {
                         }
                     }
                     idx += 1;
-                    // nothing is specified after an error response
-                    break;
+                    if m.desync && idx == m.expected.len() {
+                        // nothing is specified after this error response
+                        break;
+                    }
                 }
             }
         }
-        let error_terminated = matches!(m.expected.last(), Some(Expected::Error { .. })) && idx == m.expected.len();
+        let error_terminated = m.desync && idx == m.expected.len();
         if !error_terminated {
             if used != output.len() {
                 return Err(Violation::new(
@@ -816,7 +851,7 @@ impl Scenario for C08 {
     fn assumptions(&self) -> Vec<&'static str> {
         vec![
             "the source reports ready() == true throughout (the not-ready Error PDU is exercised in C06)",
-            "at most one malformed/unsupported unit per script, placed last: the statement fixes that it receives an Error PDU, not what the connection does afterwards",
+            "erroneous units that are exactly one 8-byte header long (unknown type, other version, too-new version) may appear anywhere and the queries after them must still be answered; an erroneous unit longer than its header (wrong length, Serial Query with a bad version) leaves the stream unframed, so at most one of those per script, placed last, and nothing is required after its Error PDU",
             "Error PDUs are compared by type and framing only, plus code 4 / version 2 for the unsupported-version case",
             "ASPA withdraw PDUs are compared by customer only",
             "tokio's current-thread scheduler is deterministic given deterministic wake-ups (checked by `selftest determinism`)",
